@@ -37,6 +37,17 @@ type (
 		File string
 		Line int
 		Text string
+
+		// imp identifies the import statement (file or snippet) that
+		// spliced this token in; nil for tokens of the main input.
+		imp *importInfo
+	}
+
+	// importInfo is one executed import statement; parent is the
+	// import statement (if any) the importing token itself came from.
+	importInfo struct {
+		name   string
+		parent *importInfo
 	}
 )
 
@@ -161,6 +172,13 @@ func isNextOnNewLine(t1, t2 Token) bool {
 	// If the second token is from a different file,
 	// we can assume it's from a different line
 	if t1.File != t2.File {
+		return true
+	}
+
+	// Tokens spliced in by different import statements (for example
+	// two snippets defined in the same file, whose line numbers say
+	// nothing about where they were imported) are on different lines
+	if t1.imp != t2.imp {
 		return true
 	}
 
